@@ -40,6 +40,11 @@ pub struct GenCfg {
     /// every function has a tail label and jumps into other functions' tails are frequent
     #[serde(default)]
     pub overlap_heavy: bool,
+    /// statements that span several lines: data lists continued on the following lines, macro
+    /// definitions (which the analyzer skips as a whole). Off unless a property asks for it: the
+    /// reference edge model does not read them.
+    #[serde(default)]
+    pub multiline: bool,
 }
 
 impl GenCfg {
@@ -101,6 +106,7 @@ impl GenCfg {
             main_label: r.chance(4, 5),
             fn_first: r.chance(1, 10),
             overlap_heavy: false,
+            multiline: false,
         }
     }
 
@@ -286,6 +292,16 @@ impl Gen<'_> {
     }
 
     fn arith(&mut self, ctx: &mut FnCtx) {
+        if self.cfg.multiline && self.r.chance(1, 12) {
+            // a macro definition: the analyzer skips it up to its end, over any number of lines
+            let name = self.fresh("mac");
+            self.emit(format!(".macro {name}"));
+            for _ in 0..1 + self.r.usize(3) {
+                self.emit(format!("addi {0}, {0}, 1", self.reg("t1")));
+            }
+            self.emit(".endmacro".into());
+            return;
+        }
         if self.cfg.discipline >= 1 && self.r.chance(1, 18) {
             // push or pop without its counterpart
             let k = *self.r.pick(&[-16i64, -8, -4, 4, 8, 16]);
@@ -765,6 +781,14 @@ impl Gen<'_> {
             };
             let s = format!("{}{}", self.ind(), s);
             self.out.push(s);
+            if self.cfg.multiline && self.r.chance(1, 2) {
+                // a list that goes on over the following lines
+                let kw = *self.r.pick(&[".word", ".byte", ".half"]);
+                self.out.push(format!("{}{kw} {}, {},", self.ind(), self.r.range(0, 9), self.r.range(0, 9)));
+                for _ in 0..1 + self.r.usize(3) {
+                    self.out.push(format!("{}    {}, {}", self.ind(), self.r.range(0, 9), self.r.range(0, 9)));
+                }
+            }
             if self.r.chance(1, 5) {
                 self.out.push(format!("{}.align 2", self.ind()));
             }
